@@ -27,12 +27,28 @@
 #ifndef CJET_RESPONSE_H
 #define CJET_RESPONSE_H
 
+#include <stdbool.h>
+
+#include "compiler.h"
 #include "peer.h"
 #include "json/cJSON.h"
 
 #ifdef __cplusplus
 extern "C" {
 #endif
+
+/**
+ * Adds item to object under key. If that fails (the copy of the key
+ * could not be allocated), item is released so that it does not leak.
+ */
+static inline bool add_item_to_object(cJSON *object, const char *key, cJSON *item)
+{
+	if (likely(cJSON_AddItemToObject(object, key, item))) {
+		return true;
+	}
+	cJSON_Delete(item);
+	return false;
+}
 
 #define INVALID_REQUEST -32600
 #define METHOD_NOT_FOUND -32601
